@@ -443,6 +443,16 @@ func (s *Sim) AddFollower(leader string, term int64, follower string, head *prot
 	return err
 }
 
+// SendTruncate delivers a Truncate request to a node directly (a delayed duplicate of a leader's request)
+func (s *Sim) SendTruncate(node string, term int64, head *proto.EntryId) error {
+	n := s.nodes[node]
+	if !n.isUp() {
+		return ErrWire
+	}
+	_, err := n.rpc.Truncate(context.Background(), &proto.TruncateRequest{Namespace: Namespace, Shard: Shard, Term: term, HeadEntryId: head})
+	return err
+}
+
 func (s *Sim) DeleteShard(node string, term int64) error {
 	n := s.nodes[node]
 	if !n.isUp() {
